@@ -2,11 +2,14 @@ package props
 
 import (
 	"fmt"
+	"time"
 
 	"google.golang.org/grpc/codes"
 
 	"verif/engine"
 	"verif/fw"
+	"verif/refmodel"
+	"verif/world"
 )
 
 var s2Assumptions = []string{
@@ -98,4 +101,161 @@ func init() {
 			c.Distinct("refusal_code", fmt.Sprint(p.RejectCode))
 			return p
 		})
+}
+
+// c05Boundary drives documents of exact byte sizes around the plugin registry's 100 kB chunk size through the
+// real Validate path and checks that the plugin saw the complete document, chunked as specified, and that the
+// validated document is what became readable.
+func c05Boundary(c *fw.Case, sizes []int) {
+	p := &engine.Profile{Targets: []string{"t1"}}
+	opts := world.Options{Targets: p.Targets}
+	w, err := world.New(opts)
+	if err != nil {
+		c.Inconclusive("world: " + err.Error())
+		return
+	}
+	defer w.Close()
+	e := &engine.Exec{C: c, W: w, P: p, Opts: opts}
+	w.Connect("t1")
+	pad := func(n int) string {
+		b := make([]byte, n)
+		for i := range b {
+			b[i] = byte('a' + i%26)
+		}
+		return string(b)
+	}
+	lastDocLen := func() int {
+		docs := w.Plugin.DocsCopy()
+		if len(docs) == 0 {
+			return -1
+		}
+		return len(docs[len(docs)-1].Doc)
+	}
+	wait := func(call *engine.Call) bool {
+		select {
+		case <-call.Done():
+			return true
+		case <-time.After(60 * time.Second):
+			c.Inconclusive("a Set was not answered within 60 s")
+			return false
+		}
+	}
+	// calibrate: document size = len(value) + k
+	base := 1000
+	c0 := e.IssueSet([]refmodel.Op{up("t1", "/a/b", "keep"), up("t1", "/foo", pad(base))}, true)
+	if !wait(c0) {
+		return
+	}
+	k := lastDocLen() - base
+	var tried []string
+	for _, size := range sizes {
+		n := size - k
+		if n < 0 {
+			continue
+		}
+		before := len(w.Plugin.DocsCopy())
+		call := e.IssueSet([]refmodel.Op{up("t1", "/foo", pad(n))}, true)
+		if !wait(call) {
+			return
+		}
+		docs := w.Plugin.DocsCopy()
+		if len(docs) != before+1 {
+			c.Violate("validated", "validated/document-count", fmt.Sprintf("a Set produced %d validations instead of 1", len(docs)-before), nil)
+			return
+		}
+		d := docs[len(docs)-1]
+		c.Count("boundary_documents", 1)
+		tried = append(tried, fmt.Sprintf("%d bytes in chunks %v", len(d.Doc), d.Chunks))
+		c.Distinct("document_size", fmt.Sprint(len(d.Doc)))
+		if len(d.Doc) != size {
+			c.Inconclusive(fmt.Sprintf("could not produce a document of %d bytes (got %d)", size, len(d.Doc)))
+			return
+		}
+		sum := 0
+		for i, ch := range d.Chunks {
+			sum += ch
+			if ch == 0 || ch > 100000 || (i < len(d.Chunks)-1 && ch != 100000) {
+				c.Violate("validated", "validated/chunking", fmt.Sprintf("document of %d bytes was sent in chunks %v", size, d.Chunks), nil)
+			}
+		}
+		if sum != size || len(d.Problem) > 0 {
+			c.Violate("validated", "validated/chunk-reassembly", fmt.Sprintf("document of %d bytes arrived as %d bytes in chunks %v (problems %v)", size, sum, d.Chunks, d.Problem), nil)
+		}
+		got, err := engine.GetTree(w.Cur(), "t1")
+		if err != nil {
+			c.Violate("config", "config/get-error", err.Error(), nil)
+			return
+		}
+		want := refmodel.Tree{}
+		want.Set(refmodel.MustParse("/a/b"), refmodel.S("keep"))
+		want.Set(refmodel.MustParse("/foo"), refmodel.S(pad(n)))
+		if diff := got.Diff(want); len(diff) > 0 {
+			c.Violate("config", "config/boundary", fmt.Sprintf("after a document of %d bytes Get differs: %d differences", size, len(diff)), nil)
+		}
+		if diff := d.Leaves.Diff(want); len(diff) > 0 {
+			c.Violate("validated", "validated/merge-differs-from-document/boundary", fmt.Sprintf("document of %d bytes does not hold the configuration that became readable", size), nil)
+		}
+	}
+	c.Class(fmt.Sprintf("boundary:%v", sizes))
+	c.Sample(map[string]interface{}{"documents": tried})
+	e.CancelAll()
+}
+
+func init() {
+	ws := witnessesFor("C05")
+	var groups [][]int
+	quickSizes := []int{1, 99990, 99998, 99999, 100000, 100001, 100002, 100010, 199995, 199999, 200000, 200001, 200005, 300000, 345678}
+	for i := 0; i < len(quickSizes); i += 3 {
+		j := i + 3
+		if j > len(quickSizes) {
+			j = len(quickSizes)
+		}
+		groups = append(groups, quickSizes[i:j])
+	}
+	var thoroughGroups [][]int
+	for s := 99980; s <= 100020; s += 4 {
+		thoroughGroups = append(thoroughGroups, []int{s, s + 1, s + 2, s + 3})
+	}
+	for s := 199990; s <= 200010; s += 4 {
+		thoroughGroups = append(thoroughGroups, []int{s, s + 1, s + 2, s + 3})
+	}
+	fw.Register(&fw.Check{ID: "C05", Level: "exploration",
+		Technique:   "runtime monitoring: recording model-plugin fake behind the real registry; every merge compared leaf for leaf with the document the plugin accepted for that proposal; exact document sizes across the 100 kB chunk boundary",
+		Rule:        s2Rule + "; plus boundary cases that drive documents of exact byte sizes (around 100000, 200000, 300000) through the real chunked Validate",
+		Assumptions: s2Assumptions, CaseTimeout: 240e9,
+		Floors: map[string]int64{"merges_compared_with_document": 400, "plugin_rejections": 40, "boundary_documents": 12, "overlapping_proposal_pairs": 100},
+		Cases: func(tier string) int {
+			if tier == "thorough" {
+				return len(ws) + len(groups) + len(thoroughGroups) + 6000
+			}
+			return len(ws) + len(groups) + 140
+		},
+		Run: func(c *fw.Case) {
+			i := c.Index
+			p := &engine.Profile{Targets: []string{"t1", "t2"}, MinOps: 5, MaxOps: 12, PMulti: 25, PPoison: 22, PEq: 25, PDevReject: 3, PDelete: 30, PRollback: 12, PEnv: 8, PNoWait: 75, PSync: 10, PStartOffline: 15, PDevFault: 3, Paths: "rich"}
+			if i%2 == 0 {
+				p.Targets = []string{"t1"}
+			}
+			if i < len(ws) {
+				c.Count("regression_witnesses_replayed", 1)
+				if e := s2RunSteps(c, "C05", p, ws[i].Steps); e != nil {
+					c.Class("witness:" + ws[i].Name)
+					c.Sample(map[string]interface{}{"witness": ws[i].Name, "script": e.Script})
+				}
+				return
+			}
+			i -= len(ws)
+			if i < len(groups) {
+				c05Boundary(c, groups[i])
+				return
+			}
+			i -= len(groups)
+			if c.Tier == "thorough" {
+				if i < len(thoroughGroups) {
+					c05Boundary(c, thoroughGroups[i])
+					return
+				}
+			}
+			s2Run(c, "C05", p)
+		}})
 }
